@@ -131,3 +131,9 @@ Theorem c14_tie_compare_tail : forall prod sver spatch other,
   src_compare_tail (compare_versions sver oversion) prod (or_empty spatch) opatch
                    (is_test opatch) (is_test (or_empty spatch)) (p_digit opatch) (p_digit (or_empty spatch)).
 Proof. exact tie_compare_tail. Qed.
+(* source-level corollaries (about the translated lines only, for every outcome of the four matches) *)
+Theorem c14_src_version_decides : forall vc prod s o a b c d, vc <> 0 -> src_compare_tail vc prod s o a b c d = vc.
+Proof. exact src_version_decides. Qed.
+Theorem c14_src_tail_range : forall vc prod s o a b c d, vc = -1 \/ vc = 0 \/ vc = 1 ->
+  let r := src_compare_tail vc prod s o a b c d in r = -1 \/ r = 0 \/ r = 1.
+Proof. exact src_tail_range. Qed.
